@@ -589,6 +589,7 @@ def _hostify_arg(I, v):
     return v
 
 
+_ITERABLE_ARG = {"extend", "update", "isdisjoint", "issubset", "issuperset", "union", "intersection", "difference", "symmetric_difference", "intersection_update", "difference_update"}
 _UNSAFE_WITH_SPECIAL = {"index", "count", "remove", "sort", "__contains__"}
 
 
@@ -628,7 +629,7 @@ def host_getattr(I, o, name):
                 return "<formatted>"
             if name == "join" and isinstance(o, str):
                 return "<joined>"
-            hargs = [_hostify_arg(I2, a) for a in args]
+            hargs = [_hostify_arg(I2, a) if name in _ITERABLE_ARG else a for a in args]
             if isinstance(o, dict) and name in ("get", "pop", "__getitem__", "setdefault") and hargs and is_sym(hargs[0]):
                 raise Unsupported("symbolic dict key")
             if isinstance(o, dict) and name == "update":
